@@ -311,6 +311,14 @@ def run(run, tier, seed, replay=None):
         results.append(("corpus/b comment between a preprocessor line and code", eval_comment("k.c", glued, 14, "// comment")))
         results.append(("corpus/c append", eval_append("k.c", fixed, "void\tft_c(void)\n{\n}")))
         results.append(("corpus/c append to a file that ends with an empty line", eval_append("k.c", fixed + "\n", "void\tft_c(void)\n{\n}")))
+        # appending the FIFTH function: files with exactly four functions and globals of several shapes (array sizes with
+        # sizeof / casts / macro calls, function pointers, prototypes) - nothing but the definitions may count as functions
+        four = "".join("int\tft_%s(void)\n{\n\treturn (%d);\n}\n\n" % (c, i) for i, c in enumerate("abcd"))[:-1]
+        for gi, glob_ in enumerate(["static char\tg_buf[sizeof(int)];", "static int\tg_v[(2 + 2)];", "static int\tg_w[(int)4];",
+                                    "static int\tg_x[SZ(3)];", "static int\t(*g_fp)(int);", "static int\tft_proto(int a);",
+                                    "static int\tg_y = (1 + 2);"]):
+            base = HDR + "\n" + glob_ + "\n\n" + four
+            results.append(("corpus/c append a fifth function after global %d" % gi, eval_append("k.c", base, "void\tft_e(void)\n{\n}")))
         nfiles = 90 if quick else 1000
         jobs = [(seed * 100003 + i, i, 8 if quick else 0) for i in range(nfiles)]
         with mp.Pool(common.NPROC, initializer=_init) as pool:
